@@ -518,7 +518,7 @@ func init() {
 		ID: "C11", Level: "model_checking", Run: c11Run,
 		Shards: func(string) int { return 16 },
 		Rule: func(tier string) string {
-			return "explicit-state search on the real security.Count: every one of the 2^24 states is built through Set on a fresh object; from each state every operation of the alphabet (reads twice interleaved, AddOne, AddOne·AddOne, SetSQN, SetOverflow, Set) is executed on the implementation and on a 24-bit integer model and Get/SQN/Overflow are compared; plus, from every state (every third in quick), every ordered pair over a 10-operation alphabet executed without a read in between (Get normalises the backing word), a BFS over every backing word with stray high bits that operations can produce (hidden states), and every length-3 sequence over a 12-operation alphabet from seed states. A state is non-trivial/distinct by its 24-bit value."
+			return "explicit-state search on the real security.Count: every one of the 2^24 states is built through Set on a fresh object; from each state every operation of the alphabet (reads twice interleaved, AddOne, AddOne·AddOne, SetSQN, SetOverflow, Set) is executed on the implementation and on a 24-bit integer model and Get/SQN/Overflow are compared; plus, from every state (every third in quick), every ordered pair over a 10-operation alphabet executed without a read in between (Get normalises the backing word), a BFS over every backing word with stray high bits that operations can produce (hidden states), and every length-3 sequence over a 12-operation alphabet from seed states; long histories: every period of one or two operations of that alphabet repeated 4096 times (thorough 70 000) from four states, observed after every step and only at the end. A state is non-trivial/distinct by its 24-bit value."
 		},
 		Bounds: func(tier string) map[string]any {
 			q, o := c11Alphabets(tier == "thorough")
